@@ -323,6 +323,34 @@ func c16Derive(locPub, locPriv, remPub *[32]byte) (s c16Session) {
 	return s
 }
 
+// c16DeriveZero: the session anybody can compute if the endpoint accepted locPub although X25519 with it yields the
+// all-zero shared secret (a small-order point): no private key is involved.
+func c16DeriveZero(locPub, remPub *[32]byte) (s c16Session) {
+	defer func() {
+		if recover() != nil {
+			s.ok = false
+		}
+	}()
+	lo, hi := sort32(locPub, remPub)
+	tr := merlin.NewTranscript("TENDERMINT_SECRET_CONNECTION_TRANSCRIPT_HASH")
+	tr.AppendMessage(labelEphemeralLowerPublicKey, lo[:])
+	tr.AppendMessage(labelEphemeralUpperPublicKey, hi[:])
+	locIsLeast := bytes.Equal(locPub[:], lo[:])
+	dh := new([32]byte)
+	tr.AppendMessage(labelDHSecret, dh[:])
+	recvSecret, sendSecret := deriveSecrets(dh, locIsLeast)
+	copy(s.challenge[:], tr.ExtractBytes(labelSecretConnectionMac, 32))
+	var err error
+	if s.sendAead, err = chacha20poly1305.New(sendSecret[:]); err != nil {
+		return s
+	}
+	if s.recvAead, err = chacha20poly1305.New(recvSecret[:]); err != nil {
+		return s
+	}
+	s.ok = true
+	return s
+}
+
 func c16Nonce(counter uint64) []byte {
 	n := make([]byte, aeadNonceSize)
 	binary.LittleEndian.PutUint64(n[4:], counter)
